@@ -7,25 +7,145 @@ verus! {
 #[verifier::external_body]
 pub struct ExMappingAtomicType2(MappingAtomicType);
 
-// R5 (contract-only, ASSUMED): the two per-clause steps (intersect_mapping / check_mapping_empty are
-// NOT verified). They are modelled as functions of the clause and of the context's atom tables.
-pub uninterp spec fn pos_shape_empty(pos: Seq<Atom>, defs: Defs) -> bool;
-pub uninterp spec fn pos_shape(pos: Seq<Atom>, defs: Defs) -> MappingAtomicType;
-pub uninterp spec fn neg_covers(shape: MappingAtomicType, neg: Seq<Atom>, defs: Defs, is_map: bool) -> bool;
+// R5 (contract-only, ASSUMED): the two per-atom steps of the object decider, `intersect_mapping` (two object atoms
+// clash, or meet in one atom) and `check_mapping_empty` (a shape is covered by a list of negative shapes). They are
+// NOT verified; they are modelled as functions of their arguments and of the context's atom tables. The two
+// per-clause functions above them (`non_empty_map_literals_intersection`, `mapping_atomic_type_is_empty`) are
+// extracted and proved against these.
+pub uninterp spec fn mt_top() -> MappingAtomicType;
+pub uninterp spec fn mt_clash(a: MappingAtomicType, b: MappingAtomicType, defs: Defs) -> bool;
+pub uninterp spec fn mt_meet(a: MappingAtomicType, b: MappingAtomicType, defs: Defs) -> MappingAtomicType;
+pub uninterp spec fn cme(pos: MappingAtomicType, negs: Seq<MappingAtomicType>, defs: Defs, is_map: bool) -> bool;
+pub uninterp spec fn mtbl_defined(defs: Defs, i: usize) -> bool;
+pub uninterp spec fn maptbl_defined(defs: Defs, i: usize) -> bool;
+pub uninterp spec fn mtbl(defs: Defs, i: usize) -> MappingAtomicType;
+pub uninterp spec fn maptbl(defs: Defs, i: usize) -> MappingAtomicType;
 
+impl MappingAtomicType {
+    #[verifier::external_body]
+    pub fn new() -> (r: MappingAtomicType) ensures r == mt_top() { unimplemented!() }
+}
+// R5 (contract-only): table lookups; `expect("should exist")` in the real bodies
+impl SemTypeContext {
+    #[verifier::external_body]
+    pub fn get_mapping_atomic(&self, idx: usize) -> (r: Rc<MappingAtomicType>)
+        requires mtbl_defined(ctx_defs(*self), idx)
+        ensures *r == mtbl(ctx_defs(*self), idx)
+    { unimplemented!() }
+    #[verifier::external_body]
+    pub fn get_map_atomic(&self, idx: usize) -> (r: Rc<MappingAtomicType>)
+        requires maptbl_defined(ctx_defs(*self), idx)
+        ensures *r == maptbl(ctx_defs(*self), idx)
+    { unimplemented!() }
+}
 #[verifier::external_body]
-fn non_empty_map_literals_intersection(pos: &[Atom], ctx: &mut SemTypeContext) -> (r: Result<IntersectionResult>)
+pub fn intersect_mapping(m1: Rc<MappingAtomicType>, m2: Rc<MappingAtomicType>, ctx: &mut SemTypeContext) -> (r: Result<Option<Rc<MappingAtomicType>>>)
     ensures ctx_defs(*final(ctx)) == ctx_defs(*old(ctx)),
         r is Ok ==> (match r->Ok_0 {
-            IntersectionResult::Empty => pos_shape_empty(pos@, ctx_defs(*old(ctx))),
-            IntersectionResult::Atomic(a) => !pos_shape_empty(pos@, ctx_defs(*old(ctx))) && *a == pos_shape(pos@, ctx_defs(*old(ctx))),
+            None => mt_clash(*m1, *m2, ctx_defs(*old(ctx))),
+            Some(v) => !mt_clash(*m1, *m2, ctx_defs(*old(ctx))) && *v == mt_meet(*m1, *m2, ctx_defs(*old(ctx))),
         }),
 { unimplemented!() }
+pub open spec fn derefs(s: Seq<Rc<MappingAtomicType>>) -> Seq<MappingAtomicType> { s.map_values(|x: Rc<MappingAtomicType>| *x) }
 #[verifier::external_body]
-fn mapping_atomic_type_is_empty(atom: Rc<MappingAtomicType>, neg: &[Atom], ctx: &mut SemTypeContext, is_map: bool) -> (r: Result<bool>)
+fn check_mapping_empty(pos: Rc<MappingAtomicType>, negs: &[Rc<MappingAtomicType>], ctx: &mut SemTypeContext, is_map: bool) -> (r: Result<bool>)
     ensures ctx_defs(*final(ctx)) == ctx_defs(*old(ctx)),
-        r is Ok ==> r->Ok_0 == neg_covers(*atom, neg@, ctx_defs(*old(ctx)), is_map),
+        r is Ok ==> r->Ok_0 == cme(*pos, derefs(negs@), ctx_defs(*old(ctx)), is_map),
 { unimplemented!() }
+
+// the atoms of an object / Map clause: of the right kind and defined in the tables (C04: the `unreachable!()` and
+// the two `expect("should exist")` behind the lookups)
+pub open spec fn matom_ok(a: Atom, defs: Defs) -> bool {
+    match a { Atom::Mapping(i) => mtbl_defined(defs, i), Atom::Map(i) => maptbl_defined(defs, i), _ => false }
+}
+pub open spec fn matoms_ok(s: Seq<Atom>, defs: Defs) -> bool { forall|i: int| 0 <= i < s.len() ==> matom_ok(#[trigger] s[i], defs) }
+// negatives: atoms of another kind are skipped by the code, so only the object / Map ones have to be defined
+pub open spec fn natom_ok(a: Atom, defs: Defs) -> bool {
+    match a { Atom::Mapping(i) => mtbl_defined(defs, i), Atom::Map(i) => maptbl_defined(defs, i), _ => true }
+}
+pub open spec fn natoms_ok(s: Seq<Atom>, defs: Defs) -> bool { forall|i: int| 0 <= i < s.len() ==> natom_ok(#[trigger] s[i], defs) }
+pub open spec fn mdnf_ok(d: Seq<Conjunction>, defs: Defs) -> bool {
+    forall|i: int| 0 <= i < d.len() ==> matoms_ok((#[trigger] d[i]).positive@, defs) && natoms_ok(d[i].negative@, defs)
+}
+pub open spec fn atom_mt(a: Atom, defs: Defs) -> MappingAtomicType {
+    match a { Atom::Mapping(i) => mtbl(defs, i), Atom::Map(i) => maptbl(defs, i), _ => mt_top() }
+}
+// the positive atoms folded from the left, starting at the empty object type: (clashed, shape so far)
+pub open spec fn pos_fold(pos: Seq<Atom>, k: int, defs: Defs) -> (bool, MappingAtomicType)
+    decreases k
+{
+    if k <= 0 || k > pos.len() { (false, mt_top()) } else {
+        let p = pos_fold(pos, k - 1, defs);
+        if p.0 { p }
+        else if mt_clash(p.1, atom_mt(pos[k - 1], defs), defs) { (true, p.1) }
+        else { (false, mt_meet(p.1, atom_mt(pos[k - 1], defs), defs)) }
+    }
+}
+pub open spec fn pos_shape_empty(pos: Seq<Atom>, defs: Defs) -> bool { pos_fold(pos, pos.len() as int, defs).0 }
+pub open spec fn pos_shape(pos: Seq<Atom>, defs: Defs) -> MappingAtomicType { pos_fold(pos, pos.len() as int, defs).1 }
+pub proof fn lemma_pos_fold_clash_stays(pos: Seq<Atom>, k: int, n: int, defs: Defs)
+    requires 0 <= k <= n <= pos.len(), pos_fold(pos, k, defs).0
+    ensures pos_fold(pos, n, defs).0
+    decreases n - k
+{
+    if k < n { lemma_pos_fold_clash_stays(pos, k, n - 1, defs); }
+}
+pub proof fn lemma_clash_then_empty(pos: Seq<Atom>, k: int, defs: Defs)
+    requires 0 <= k < pos.len(), !pos_fold(pos, k, defs).0
+    ensures mt_clash(pos_fold(pos, k, defs).1, atom_mt(pos[k], defs), defs) ==> pos_shape_empty(pos, defs)
+{
+    if mt_clash(pos_fold(pos, k, defs).1, atom_mt(pos[k], defs), defs) {
+        assert(pos_fold(pos, k + 1, defs).0);
+        lemma_pos_fold_clash_stays(pos, k + 1, pos.len() as int, defs);
+    }
+}
+pub broadcast proof fn lemma_pos_fold_step(pos: Seq<Atom>, k: int, defs: Defs)
+    requires 0 <= k < pos.len()
+    ensures #[trigger] pos_fold(pos, k + 1, defs) == ({
+        let p = pos_fold(pos, k, defs);
+        if p.0 { p }
+        else if mt_clash(p.1, atom_mt(pos[k], defs), defs) { (true, p.1) }
+        else { (false, mt_meet(p.1, atom_mt(pos[k], defs), defs)) }
+    })
+{}
+// the object / Map atoms among the negatives, in order
+pub open spec fn neg_mts(neg: Seq<Atom>, k: int, defs: Defs) -> Seq<MappingAtomicType>
+    decreases k
+{
+    if k <= 0 || k > neg.len() { Seq::empty() } else {
+        let s = neg_mts(neg, k - 1, defs);
+        match neg[k - 1] {
+            Atom::Mapping(i) => s.push(mtbl(defs, i)),
+            Atom::Map(i) => s.push(maptbl(defs, i)),
+            _ => s,
+        }
+    }
+}
+pub broadcast proof fn lemma_neg_mts_step(neg: Seq<Atom>, k: int, defs: Defs)
+    requires 0 <= k < neg.len()
+    ensures #[trigger] neg_mts(neg, k + 1, defs) == ({
+        let s = neg_mts(neg, k, defs);
+        match neg[k] {
+            Atom::Mapping(i) => s.push(mtbl(defs, i)),
+            Atom::Map(i) => s.push(maptbl(defs, i)),
+            _ => s,
+        }
+    })
+{}
+pub broadcast proof fn lemma_derefs_push(s: Seq<Rc<MappingAtomicType>>, x: Rc<MappingAtomicType>)
+    ensures #[trigger] derefs(s.push(x)) == derefs(s).push(*x)
+{
+    assert(derefs(s.push(x)) =~= derefs(s).push(*x));
+}
+pub broadcast proof fn lemma_derefs_empty(s: Seq<Rc<MappingAtomicType>>)
+    requires s.len() == 0
+    ensures #[trigger] derefs(s) == Seq::<MappingAtomicType>::empty()
+{
+    assert(derefs(s) =~= Seq::<MappingAtomicType>::empty());
+}
+pub open spec fn neg_covers(shape: MappingAtomicType, neg: Seq<Atom>, defs: Defs, is_map: bool) -> bool {
+    cme(shape, neg_mts(neg, neg.len() as int, defs), defs, is_map)
+}
 
 // a DNF clause of objects is empty iff its positive atoms clash, or the remaining shape is covered by the negatives
 pub open spec fn mclause_empty(c: Conjunction, defs: Defs, is_map: bool) -> bool {
